@@ -306,6 +306,11 @@ def corruptions(model):
         yield 'node-id+1', root, (lambda m, i=i: setattr(m.nodes[i], 'id', m.nodes[i].id + 1))
         if i > 0:
             yield 'node-id=0', root, (lambda m, i=i: setattr(m.nodes[i], 'id', 0))
+        if root:
+            # the root's own parent field (normally absent): no sanity rule mentions it, but queries must still terminate
+            yield 'root-parent=self', True, (lambda m, i=i: setattr(m.nodes[i], 'parent', i))
+            if n > 1:
+                yield 'root-parent=other', True, (lambda m, i=i: setattr(m.nodes[i], 'parent', (i + 1) % n))
         if not root:
             yield 'parent-absent', nd.parent == model.start_id, (lambda m, i=i: setattr(m.nodes[i], 'parent', None))
             wrong = (nd.parent + 1) % n
